@@ -132,6 +132,9 @@ def cmp_c02(case, i, m):
         return ("impl-" + str(i.get("outcome")), f"path `{case['pathText']}`: real code gave {i.get('outcome')}: {str(i.get('err'))[:200]}")
     if m["values"] != m["implValues"] or m["count"] != m["implCount"]:
         return ("~model-self", "clauses model and denotation disagree (theorem clauses_denote contradicted?)")
+    # blank-node labels are the processor's to choose: anonymous nodes are compared as anonymous
+    anon = lambda vs: sorted("_:" if isinstance(v, str) and v.startswith("_:") else v for v in vs)
+    i, m = dict(i, values=anon(i["values"])), dict(m, values=anon(m["values"]))
     if i["values"] != m["values"]:
         return ("values", f"path `{case['pathText']}` from {case['focus']}: code reaches {i['values']} but the denotation is {m['values']}")
     if i["count"] != m["count"]:
@@ -367,8 +370,33 @@ C11_THEOREMS = ["Acv.C11.no_opaque", "Acv.C11.emit_is_blocking_send", "Acv.C11.c
                 "Acv.C11.milestones_one_per_completed_stage", "Acv.C11.milestone_cases_complete", "Acv.C11.assignment_runs_explored"]
 
 
+def hist_stream_c11(ctx):
+    """histories in which the caller hands every call its event channel through one and the same variable"""
+    lines = gen_cases("hist", 24 if ctx.quick() else 400, ctx.seed * 1000 + 11)
+    impl = run_impl(lines, jobs=16)
+    bad, calls = 0, 0
+    for line, i in zip(lines, impl):
+        case = json.loads(line)
+        if i.get("outcome") != "ok":
+            continue
+        for k, p in enumerate(i["positions"]):
+            if "chanClosed" not in p:
+                continue
+            calls += 1
+            if p.get("compiled") == "panic" and "closed channel" in str(p.get("panic")):
+                bad += 1
+                ctx.violation("C11:history:closed-channel-panic", f"position {k} of a history of {len(case['docs'])} calls that pass their event channel through one variable: {str(p.get('panic'))[:120]}", {"case": case, "impl": i})
+                break
+            if p.get("compiled") in ("ok", "err") and p.get("chanClosed") is False:
+                bad += 1
+                ctx.violation("C11:history:not-closed", f"position {k} ({case['kinds'][k]}) of a history of {len(case['docs'])} calls that pass their event channel through one variable: the call returned ({p.get('compiled')}) but its channel was never closed (earlier calls: {k})", {"case": case, "impl": i})
+                break
+    ctx.coverage.setdefault("streams", {})["hist-events"] = {"histories": len(lines), "calls_with_channel": calls}
+    ctx.oblige("search:each call of a history closes the channel it was given, also when every call gets it through the same variable", bad == 0)
+
+
 def check_C11(ctx):
-    return skeleton_check(ctx, "C11", "Acv.Props.C11", C11_THEOREMS,
+    return skeleton_check(ctx, "C11", "Acv.Props.C11", C11_THEOREMS, extra=hist_stream_c11,
         rule="every profile/data variant built to fail at one stage (YAML, structure, unknown prefix, Rego syntax, denied builtin, undecodable data, JSON-LD rejection, evaluation conflict) x every public entry point, run with a real event channel and consumer goroutine; non-trivial = some stage fails",
         assumptions=["every event send and close goes through dispatchEvent/CloseEventChan in the translated functions (checked by the correspondence, not by the theorems)"])
 
